@@ -340,17 +340,22 @@ func c9inputUnits(tier string) []mc.Unit {
 						in[i], in[j] = in[j], in[i]
 					}
 				}
-				once(func(c *mc.Ctx) {
-					out, parts := runLigate(c, toClone(in), sched.Options{Horizon: 3000000, MaxTasks: 200000})
-					c9judge(r, fmt.Sprintf("library %d junctions x 3 alternatives, variant %d", J, variant), []string{"inputs"}, nil, out, parts, want)
-				})
-				cnt++
+				for _, rr := range []bool{false, true} {
+					if rr && J > tier2(tier, 4, 5) {
+						continue
+					}
+					once(func(c *mc.Ctx) {
+						out, parts := runLigate(c, toClone(in), sched.Options{Horizon: 3000000, MaxTasks: 200000, RoundRobin: rr})
+						c9judge(r, fmt.Sprintf("library %d junctions x 3 alternatives, variant %d, round-robin schedule=%v", J, variant, rr), []string{"inputs"}, nil, out, parts, want)
+					})
+					cnt++
+				}
 			}
 			r.Eval(cnt)
 			r.AddStates(cnt)
 			r.AddTransitions(cnt)
 			r.AddNontrivial(cnt)
-			r.Bound("inputs/libraries", "complete libraries of 4, 5 and 6 junctions x 3 alternatives (81, 243, 729 plasmids) on the default schedule, as designed and with alternate fragments flipped in reversed input order")
+			r.Bound("inputs/libraries", "complete libraries of 4, 5 and 6 junctions x 3 alternatives (81, 243, 729 plasmids) on two extreme schedules (depth first: a spawned task runs to its end before its siblings; round robin: every live task advances in turn, several hundred tasks alive at once), as designed and with alternate fragments flipped in reversed input order")
 		}})
 	}
 	// two disjoint rings in one pool; a ring plus a self-closing fragment
